@@ -92,13 +92,20 @@ class Rule:
     def to_json_like(self, *args, **kwargs):
         out = {
             "condition": self.condition.to_json_like(),
-            "cast": self.cast,
+            "cast": self._cast_to_json_like(),
             "path": self.path.to_json_like(),
         }
         if "shared_data" in kwargs:
             return out, kwargs["shared_data"]
         else:
             return out
+
+    def _cast_to_json_like(self):
+        if self.cast is None:
+            return None
+        inv_dtype = {v: k for k, v in CAST_DTYPE_LOOKUP.items()}
+        inv_cast = {v: k for k, v in CAST_LOOKUP.items()}
+        return {inv_dtype[k]: inv_dtype[inv_cast[v][1]] for k, v in self.cast.items()}
 
     def test(self, data, _data_copy=None):
         if not isinstance(data, Data):
